@@ -24,7 +24,7 @@ func init() {
 		Title: "The decoded packet does not depend on how the stream is fragmented",
 		Level: "model_checking",
 		Rule: "stateless exploration of the real ReadPacket under a scripted io.Reader: one choice point per Read call with the menu {deliver all asked, deliver k for every 1<=k<asked, (0,nil) (bounded per execution), deliver the final bytes together with io.EOF}; " +
-			"frames <= 10 bytes: the complete tree with up to 2 zero-length reads; longer frames: every execution with at most 2 non-default answers (3 for frames <= 48 bytes; thorough: 4 for frames <= 24 bytes, 3 for frames <= 100 bytes, two zero-length reads everywhere); frames of 4 090, 5 000 and 9 000 bytes with 1 (plus one 70 KiB frame in the thorough tier); every frame of the valid corpus V (~2.7k frames, one per field shape) with 1 (quick) / 2 (thorough). " +
+			"frames <= 10 bytes: the complete tree with up to 2 zero-length reads; longer frames: every execution with at most 2 non-default answers (3 for frames <= 48 bytes; thorough: 4 for frames <= 24 bytes, 3 for frames <= 100 bytes, two zero-length reads everywhere); four frames of 0.3-2.2 MB (CONNECT, CONNACK, SUBSCRIBE, PUBLISH) with 3 over a coarse menu of short counts {1, half, all but one}; frames of 4 090, 5 000 and 9 000 bytes with 1 (plus one 70 KiB frame in the thorough tier); every frame of the valid corpus V (~2.7k frames, one per field shape) with 1 (quick) / 2 (thorough). " +
 			"Every execution's result (accessor observation + String + re-encoding, or rejection) must equal the contiguous execution's. " +
 			"states = distinct (frame, reader position, answers so far) prefixes = choice points visited; transitions = Read answers executed; a trace is one complete delivery schedule, all run on the implementation; distinct_nontrivial = distinct schedules with at least one non-default answer.",
 		Assumptions: []string{
@@ -38,7 +38,7 @@ func init() {
 
 func c07Exec(frame []byte, c *explore.Chooser, maxZero int, log bool) (string, *env.Reader) {
 	resetGlobals()
-	r := &env.Reader{Data: frame, C: c, MaxZero: maxZero, Log: log}
+	r := &env.Reader{Data: frame, C: c, MaxZero: maxZero, Log: log, Coarse: len(frame) > 100_000}
 	p, err, res := readPacket(r, stepBudget(len(frame)))
 	return outcome(p, err, res), r
 }
@@ -109,6 +109,25 @@ func c07Frames(x *core.Ctx) []CFrame {
 		p := &spec.Packet{Type: 3, Flags: 2, PacketID: 3, Topic: []byte("big"), Payload: gen.Content('L', n)}
 		fr = append(fr, CFrame{Name: fmt.Sprintf("publish.%dB", n), B: mustEncode(p, spec.Form{}), Valid: true, Type: 3})
 	}
+	// very large frames of different types (remaining length in its 3- and
+	// 4-byte form), explored with a coarse menu of short counts {1, half,
+	// all but one} at each Read, zero reads and data+EOF
+	bigUser := func(t byte, n int) *spec.Packet {
+		p := minimalPacket(t)
+		for i := 0; i < n; i++ {
+			p.Props = append(p.Props, spec.Prop{ID: 0x26, B: []byte("k"), V: gen.Content('v', 60000)})
+		}
+		return p
+	}
+	for _, bp := range []struct {
+		name string
+		p    *spec.Packet
+	}{
+		{"connect.1.2MB", bigUser(1, 20)}, {"connack.0.3MB", bigUser(2, 5)}, {"subscribe.1.2MB", bigUser(8, 20)},
+		{"publish.2.2MB", &spec.Packet{Type: 3, Topic: []byte("huge"), Payload: gen.Content('L', 2_200_000)}},
+	} {
+		fr = append(fr, CFrame{Name: bp.name, B: mustEncode(bp.p, spec.Form{}), Valid: true, Type: bp.p.Type})
+	}
 	if x.Thorough() {
 		// one frame whose body needs many reads on a slow link
 		p := &spec.Packet{Type: 3, Topic: []byte("big"), Payload: gen.Content('L', 70*1024)}
@@ -142,6 +161,8 @@ func runC07(x *core.Ctx) {
 		switch {
 		case len(f.B) <= 10:
 			bound, maxZero, stratum = -1, 2, "complete<=10B"
+		case len(f.B) > 100_000:
+			bound, maxZero, stratum = 3, 1, "bounded3.huge.coarse"
 		case len(f.B) > 4000:
 			bound, maxZero, stratum = 1, 1, "bounded1.big"
 		case x.Thorough() && len(f.B) <= 24:
